@@ -187,6 +187,8 @@ class Check:
         self.cov["harness_build_s"] = round(dt, 1)
         if rc != 0:
             self.notes.append({"harness_build_failed": out[-2000:]})
+            self.violation("harness-build", "the harness does not build against /repo's working tree (with --cfg ivp_verif): the "
+                           "correspondence and the monitors of this property could not run", {"cargo_output_tail": out[-1500:]}, False)
             return False
         return True
 
@@ -200,6 +202,7 @@ class Check:
         self.cov["driver_build_s"] = round(dt, 1)
         if rc != 0:
             self.notes.append({"driver_build_failed": out[-1500:]})
+            self.violation("driver-build", "the Lean model driver does not build", {"lake_output_tail": out[-1500:]}, False)
             return False
         return True
 
